@@ -110,7 +110,7 @@ def main():
         t1 = jnp.asarray([10.0 * i + 1 for i in range(n)], dtype=jnp.float32)
         t2 = jnp.asarray([10.0 * i + 2 for i in range(n)], dtype=jnp.float32)
         tr = model.vmap(in_axes=(0, 0)).simulate(t1, t2)
-        shift2 = rng.choice([0.0, 1.5, -4.0, -100.0, 95.0])
+        shift2 = rng.choice([0.0, 1.5, -4.0, -30.0, 40.0])
         lw = jnp.log(jnp.asarray(ws, dtype=jnp.float32)) + shift2
         est = jnp.float32(rng.choice([0.0, -2.25, 3.5]))
         # stored diagnostic weights are deliberately stale (as after rejuvenate / a previous resample)
